@@ -7,9 +7,12 @@ compared with the model's prediction.
 (J) random graphs up to 5 nodes / depth 5 are exercised by the driver and the recorded events are validated
 against Trace_TypeGraph.tla."""
 import hashlib, json, os, subprocess
+from concurrent.futures import ThreadPoolExecutor
 from vlib import core
 
-DEVS = ["hash.union_order_dependent", "hash.meta_iteration_order", "dup.meta_values_shared"]
+# deviations found in the real code first; the last two are hypothetical (vacuity guards of the in-place write steps)
+DEVS = ["hash.union_order_dependent", "hash.meta_iteration_order", "dup.meta_values_shared", "dup.enum_values_shared",
+        "dup.meta_backing_array_shared", "dup.required_backing_array_shared"]
 DRIVER = "drivers/expr"
 TRACE = ("trace/Trace_TypeGraph", "trace/Trace_TypeGraph.cfg")
 
@@ -17,7 +20,7 @@ TRACE = ("trace/Trace_TypeGraph", "trace/Trace_TypeGraph.cfg")
 # ------------------------------------------------------------------ decoding of TLC's positional arrays
 def dec_attr(a):
     return {"name": a[0], "ref": {"p": a[1], "n": a[2]}, "desc": a[3], "req": a[4], "val": a[5], "meta": a[6],
-            "tags": {"name": a[7], "type": a[8]}, "x": a[9]}
+            "tags": {"name": a[7], "type": a[8]}, "x": a[9], "enum": a[10]}
 
 
 def dec_g(a):
@@ -237,6 +240,13 @@ def compare_hash(ctx, v, o, o2, nontrivial):
             ctx.sample({"graph": g, "transformation": t, "predicted_eq_bits": exp, "observed": x})
 
 
+def step_key(script, k):
+    """The failing step, preceded by the earlier step it pairs with (same change at the same place on the other side)."""
+    s = script[k]
+    pair = [p for p in script[:k] if p["side"] != s["side"] and (p["op"], p["node"], p["idx"]) == (s["op"], s["node"], s["idx"])]
+    return ("%s.%s+" % (pair[0]["side"], pair[0]["op"]) if pair else "") + "%s.%s" % (s["side"], s["op"])
+
+
 DUP_FIELDS = [("copyeq", True), ("shared", 0), ("hasheq", 255), ("equal", True), ("atteq", True), ("attshared", 0), ("again", True)]
 
 
@@ -257,7 +267,7 @@ def compare_dup(ctx, v, o, nontrivial):
     if o["unch"] != pred["unch"]:
         k = next(i for i, (a, b) in enumerate(zip(o["unch"], pred["unch"])) if a != b)
         s = script[k]
-        report(ctx, "C13/dup/independent/%s/other-side-changed" % ops,
+        report(ctx, "C13/dup/independent/%s/other-side-changed" % step_key(script, k),
                "step %d (%s on the %s, node %d attribute %d) changed the %s" % (k + 1, s["op"], s["side"], s["node"], s["idx"],
                                                                                 "copy" if s["side"] == "orig" else "original"),
                inp, {"predicted": pred, "observed": o})
@@ -280,13 +290,14 @@ def gen_runs(quick):
         ("hash N<=3", dict(N=3, K=2, Leaves='{"string"}', UKinds='{"user"}', Modes='{"hash"}', Decos="{0}")),
         ("hash 4 attributes", dict(N=2, K=4, Leaves='{"string"}', UKinds='{"user"}', Modes='{"hash"}', Decos="{0}")),
         ("dup N<=2", dict(N=2, K=2, Leaves='{"string"}', UKinds=both, Modes='{"dup"}', Decos="{0, 3}", Script='"paired"')),
-        ("dup N<=3", dict(N=3, K=2, Leaves='{"string"}', UKinds='{"user"}', Modes='{"dup"}', Decos="{3}", Script='"copyfirst"')),
+        ("dup N<=3 K=1", dict(N=3, K=1, Leaves='{"string"}', UKinds='{"user"}', Modes='{"dup"}', Decos="{3}", Script='"copyfirst"')),
     ]
     if not quick:
         runs += [
             ("hash N<=3 rich", dict(N=3, K=2, Leaves='{"string", "int"}', UKinds='{"user"}', Modes='{"hash"}', Decos="{0, 1}")),
             ("hash N<=4", dict(N=4, K=2, Leaves='{"string"}', UKinds='{"user"}', Modes='{"hash"}', Decos="{0}")),
             ("hash N<=3 3 attributes", dict(N=3, K=3, Leaves='{"string"}', UKinds='{"user"}', Modes='{"hash"}', Decos="{0}")),
+            ("dup N<=3", dict(N=3, K=2, Leaves='{"string"}', UKinds='{"user"}', Modes='{"dup"}', Decos="{3}", Script='"copyfirst"')),
             ("dup N<=3 results", dict(N=3, K=2, Leaves='{"string"}', UKinds='{"result"}', Modes='{"dup"}', Decos="{2}", Script='"paired"')),
         ]
     return runs
@@ -338,17 +349,24 @@ def run(ctx):
         "no transformation renames a union, tags a user type's own attribute or turns a user type into a result type: the documentation "
         "of expr.Hash does not say whether these count",
     ]
-    # (M) vacuity guards: each named deviation must break an invariant
+    # (M) vacuity guards: each named deviation must break an invariant (small models, run side by side)
     small = dict(N=1, K=3, Leaves='{"string"}', UKinds='{"user"}', Decos="{0}")
-    ctx.mc_expect_violation("mc/MC_TypeGraph", consts=dict(small, Modes='{"hash"}', Deviations='{"%s"}' % DEVS[0]), label="MC dev union")
-    ctx.mc_expect_violation("mc/MC_TypeGraph", consts=dict(small, Modes='{"hash"}', Deviations='{"%s"}' % DEVS[1]), label="MC dev meta order")
-    ctx.mc_expect_violation("mc/MC_TypeGraph", consts=dict(small, Modes='{"dup"}', Decos="{3}", Deviations='{"%s"}' % DEVS[2]), label="MC dev meta shared")
-    # (M)+(G) exhaustive enumeration with the invariants checked; every emitted case is replayed on the real code
+    guards = [(d, dict(small, Modes='{"hash"}', Deviations='{"%s"}' % d)) for d in DEVS[:2]]
+    guards += [(d, dict(small, Modes='{"dup"}', Decos="{3}", Deviations='{"%s"}' % d)) for d in DEVS[2:]]
+    with ThreadPoolExecutor(max_workers=len(guards)) as ex:
+        for f in [ex.submit(ctx.mc_expect_violation, "mc/MC_TypeGraph", consts=c, label="MC dev " + d, workers=2) for d, c in guards]:
+            f.result()
+    # (M)+(G) exhaustive enumeration with the invariants checked; every emitted case is replayed on the real code.
+    # Quick: the TLC runs are started together and consumed in order; thorough: one at a time (memory).
     seen, nontrivial = set(), set()
-    for label, consts in gen_runs(quick):
-        r = ctx.gen("mc/MC_TypeGraph", "gen/Gen_TypeGraph.cfg", consts=consts, label=label, timeout=3000, heap=None if quick else "24g")
-        replay_vectors(ctx, r.vectors, seen, nontrivial, label)
-        r.vectors, r.stdout = [], ""
+    runs = gen_runs(quick)
+    with ThreadPoolExecutor(max_workers=len(runs) if quick else 1) as ex:
+        futs = [(label, ex.submit(ctx.gen, "mc/MC_TypeGraph", "gen/Gen_TypeGraph.cfg", consts=consts, label=label, timeout=3000,
+                                  heap=None if quick else "24g", workers=4 if quick else "auto")) for label, consts in runs]
+        for label, f in futs:
+            r = f.result()
+            replay_vectors(ctx, r.vectors, seen, nontrivial, label)
+            r.vectors, r.stdout = [], ""
     if not quick:
         # 5 nodes: random walks through Build and the rest of the machine (invariants checked, cases emitted).
         # TLC evaluates Emit on every successor it draws from, so one walk in dup mode yields every one-step
@@ -360,7 +378,7 @@ def run(ctx):
         r.vectors, r.stdout = [], ""
     del seen
     # (J) random graphs up to 5 nodes, judged by trace validation
-    nrand = 150 if quick else 1200
+    nrand = 100 if quick else 1200
     d = ctx.subdir("random")
     binp = ctx.gobuild(DRIVER)
     tpath = os.path.join(d, "trace.ndjson")
@@ -415,7 +433,8 @@ def validate_trace(ctx, lines, nontrivial, maxfail=4):
             script = [e["step"] for e in case if e["ev"] == "mutate"]
             ops = "+".join("%s.%s" % (s["side"], s["op"]) for s in script) or "none"
             inp = {"mode": "dup", "g": g, "script": script}
-            key = "C13/dup/independent/%s/other-side-changed" % ops if bad["ev"] == "mutate" and not bad["unch"] else "C13/dup/%s/%s" % (ops, bad["ev"])
+            key = ("C13/dup/independent/%s/other-side-changed" % step_key(script, len(script) - 1) if bad["ev"] == "mutate" and not bad["unch"]
+                   else "C13/dup/%s/%s" % (ops, bad["ev"]))
             report(ctx, key, "random graph: %s event rejected by Trace_TypeGraph" % bad["ev"], inp, {"trace": case})
         else:
             ctx.violation("C13/trace/%s" % bad["ev"], "random graph: event rejected by Trace_TypeGraph: %s" % json.dumps(bad)[:300], {"trace": case})
